@@ -314,7 +314,7 @@ class Check:
         self.obligation("no Admitted/Axiom/Parameter/guard-off anywhere in coq/", not bad, "; ".join(bad))
         ok, out = self.coq_make(["props/%s.vo" % self.pid])
         if not ok:
-            failing = re.findall(r'File "\./([^"]+)", line (\d+)', out)
+            failing = re.findall(r'File "\./([^"]+)", line (\d+)[^\n]*\n(?:[^\n]*\n)?Error', out)
             for t in thms:
                 self.obligation("theorem " + t, False, "build failed: %s" % (failing[-3:],))
             self.build_log = out
@@ -372,10 +372,12 @@ class Check:
         directory, compile it with the generated cases (OCaml text; prelude + `let cases = [...]`) and
         ocaml/<driver>, run, return (rc, stdout). The extraction is re-run on every call so that it always
         reflects the current models (their .vo must have been built: call coq_make first)."""
-        d = os.path.join(BUILD, "ocaml", repo_tag(), name)
+        # one scratch directory per run: concurrent checks (and seeds) must not share extracted/compiled files
+        d = os.path.join(BUILD, "ocaml", repo_tag(), "%s_%s_%d" % (name, self.pid, os.getpid()))
         os.makedirs(d, exist_ok=True)
         t = time.time()
-        rc, out = sh(["coqc", "-R", COQ, "Qryn", "-w", "-extraction", os.path.join(COQ, "extract", extract_v)], cwd=d, timeout=600)
+        rc, out = sh(["coqc", "-R", COQ, "Qryn", "-w", "-extraction", "-o", os.path.join(d, extract_v[:-2] + ".vo"),
+                      os.path.join(COQ, "extract", extract_v)], cwd=d, timeout=600)
         if rc != 0:
             return rc, "extraction failed: " + out[-2000:]
         prelude = open(os.path.join(VERIF, "ocaml", "prelude.ml")).read()
@@ -388,6 +390,8 @@ class Check:
             return rc, "ocaml build failed: " + out[-3000:]
         tb = time.time() - t
         rc, out = sh([os.path.join(d, "run")], cwd=d, timeout=timeout)
+        import shutil as _sh
+        _sh.rmtree(d, ignore_errors=True)
         self.log("ocaml eval %s rc=%d (extract+build %.1fs, total %.1fs)" % (name, rc, tb, time.time() - t))
         self.checker_cmds.append("coqc extract/%s -> ocamlopt -> run (model side of the correspondence)" % extract_v)
         return rc, out
